@@ -134,7 +134,8 @@ theorem winsOK_dropLast {W : Nat} {c : List Block} {d d' : Disk} (hw : WinsOK W 
 without its head when the revert was committed, for the same chain otherwise. -/
 theorem revert_good {W : Nat} (hW : 0 < W) {fx : Fixes} (hs : fx.dropSnapOnRevert = true)
     (hp : fx.dropPrevWinOnCross = true) (hr : fx.resetOnError = true) {c : List Block} {n : Node}
-    (hg : Good W c n) (ft : Fault) : ∃ c', Good W c' (exec W fx n .revert ft).1 := by
+    (hg : Good W c n) (ft : Fault) (hb : ft ≠ .failInit ∧ ft ≠ .crashInit) :
+    ∃ c', Good W c' (exec W fx n .revert ft).1 := by
   by_cases hne : c.length = 0
   · -- nothing to revert: the call fails before touching anything
     have hh : getHeight n.disk = none := by rw [hg.coh.height]; simp [hne]
@@ -142,6 +143,8 @@ theorem revert_good {W : Nat} (hW : 0 < W) {fx : Fixes} (hs : fx.dropSnapOnRever
       simp only [plan, revertPlan, hh]
     refine ⟨c, ?_⟩
     cases ft with
+    | failInit => exact absurd rfl hb.1
+    | crashInit => exact absurd rfl hb.2
     | none =>
       simp only [exec, hpl, applyCommits, List.foldl_nil, memAfter, hr, if_true]
       exact ⟨hg.wf, hg.coh, hg.wins, hg.snap, trivial⟩
@@ -188,6 +191,8 @@ theorem revert_good {W : Nat} (hW : 0 < W) {fx : Fixes} (hs : fx.dropSnapOnRever
         trivial
       have hwf' := wf_prefix hg1.wf
       cases ft with
+      | failInit => exact absurd rfl hb.1
+      | crashInit => exact absurd rfl hb.2
       | none =>
         refine ⟨c', ?_⟩
         simp only [exec, hpl, applyCommits, List.foldl_cons, List.foldl_nil, memAfter]
@@ -285,11 +290,14 @@ theorem storePlan_disk0 (W : Nat) (n : Node) (b : Block) :
 /-- Store of the repaired code from a good node with ANY fault (also a failed commit: the filter
 is dropped and rebuilt from the unchanged disk). -/
 theorem store_any_good_repaired {W : Nat} (hW : 0 < W) {fx : Fixes} (hr : fx.resetOnError = true)
-    {c : List Block} {n : Node} {b : Block} (hg : Good W c n) (hfr : Fresh n.disk b) (ft : Fault) :
+    {c : List Block} {n : Node} {b : Block} (hg : Good W c n) (hfr : Extends n.disk b → Fresh n.disk b)
+    (ft : Fault) (hb : ft ≠ .failInit ∧ ft ≠ .crashInit) :
     ∃ c', Good W c' (exec W fx n (.store b) ft).1 := by
   cases ft with
-  | none => exact store_any_good hW fx hg hfr .none (by intro k h; cases h)
-  | crashAfter k => exact store_any_good hW fx hg hfr (.crashAfter k) (by intro k h; cases h)
+  | failInit => exact absurd rfl hb.1
+  | crashInit => exact absurd rfl hb.2
+  | none => exact store_any_good hW fx hg hfr .none (by intro k h; cases h) ⟨by simp, by simp⟩
+  | crashAfter k => exact store_any_good hW fx hg hfr (.crashAfter k) (by intro k h; cases h) ⟨by simp, by simp⟩
   | failAt k =>
     by_cases hk : k < (plan W fx n (.store b)).commits.length
     · refine ⟨c, ?_⟩
@@ -305,12 +313,44 @@ theorem store_any_good_repaired {W : Nat} (hW : 0 < W) {fx : Fixes} (hr : fx.res
       · exact ⟨hg.wf, by simp only [plan, h]; exact hg1.coh, by simp only [plan, h]; exact hg1.wins,
           by simp only [plan, h]; exact hg1.snap, trivial⟩
     · rw [exec_failAt_ge hk]
-      exact store_any_good hW fx hg hfr .none (by intro k h; cases h)
+      exact store_any_good hW fx hg hfr .none (by intro k h; cases h) ⟨by simp, by simp⟩
+
+/-- One call of the repaired code (all four repairs) from a good node, under ANY fault — failure of
+any commit, of the lazy initialisation's write, a crash after any commit or after the
+initialisation's write: good again. -/
+theorem exec_good_repaired {W : Nat} (hW : 0 < W) {fx : Fixes} (hs : fx.dropSnapOnRevert = true)
+    (hp : fx.dropPrevWinOnCross = true) (hr : fx.resetOnError = true) (hi : fx.retryInit = true)
+    {c : List Block} {n : Node} (hg : Good W c n) (op : Op) (ft : Fault)
+    (hv : match op with
+      | .store b => Extends n.disk b → Fresh n.disk b
+      | .prune _ => False
+      | _ => True) :
+    ∃ c', Good W c' (exec W fx n op ft).1 := by
+  have hpr : ∀ e, op ≠ .prune e := by
+    intro e he; subst he; exact hv
+  have basic : ∀ ft', ft' ≠ .failInit ∧ ft' ≠ .crashInit → ∃ c', Good W c' (exec W fx n op ft').1 := by
+    intro ft' hb
+    cases op with
+    | store b => exact store_any_good_repaired hW hr hg hv ft' hb
+    | revert => exact revert_good hW hs hp hr hg ft' hb
+    | l1head v => exact ⟨c, misc_good fx hg _ (Or.inl ⟨v, rfl⟩) ft' hb⟩
+    | snap => exact ⟨c, snap_good hW fx hg _ (Or.inl rfl) ft' hb⟩
+    | restart => exact ⟨c, snap_good hW fx hg _ (Or.inr rfl) ft' hb⟩
+    | kill => exact ⟨c, misc_good fx hg _ (Or.inr rfl) ft' hb⟩
+    | prune e => exact absurd hv (by simp)
+  by_cases hci : ft = .crashInit
+  · subst hci; exact ⟨c, crashInit_good hW fx hg op hpr⟩
+  by_cases hfi : ft = .failInit
+  · subst hfi
+    rcases failInit_good hi hg op with h | h
+    · rw [h]; exact basic .none ⟨by simp, by simp⟩
+    · exact ⟨c, h⟩
+  exact basic ft ⟨hfi, hci⟩
 
 /-- The repaired code: EVERY history over store / revert / set-L1-head / snapshot / restart /
-kill, with EVERY fault (any commit failing, a crash after any commit), keeps the node good. -/
+kill, with EVERY fault, keeps the node good. -/
 theorem good_run_repaired {W : Nat} (hW : 0 < W) {fx : Fixes} (hs : fx.dropSnapOnRevert = true)
-    (hp : fx.dropPrevWinOnCross = true) (hr : fx.resetOnError = true) :
+    (hp : fx.dropPrevWinOnCross = true) (hr : fx.resetOnError = true) (hi : fx.retryInit = true) :
     ∀ (h : List (Op × Fault)) (n : Node) (c : List Block), Good W c n → ValidHist W fx n h →
       ∃ c', Good W c' (run W fx n h) := by
   intro h
@@ -321,16 +361,38 @@ theorem good_run_repaired {W : Nat} (hW : 0 < W) {fx : Fixes} (hs : fx.dropSnapO
     obtain ⟨op, ft⟩ := x
     simp only [ValidHist] at hv
     simp only [run]
+    obtain ⟨c', hg'⟩ := exec_good_repaired hW hs hp hr hi hg op ft hv.1
+    exact ih _ c' hg' hv.2
+
+/-- The code as it is (the initialisation error is still cached): the same for histories in which
+no write of a lazy initialisation fails. -/
+theorem good_run_now {W : Nat} (hW : 0 < W) {fx : Fixes} (hs : fx.dropSnapOnRevert = true)
+    (hp : fx.dropPrevWinOnCross = true) (hr : fx.resetOnError = true) :
+    ∀ (h : List (Op × Fault)) (n : Node) (c : List Block), Good W c n → ValidHist W fx n h →
+      (∀ x ∈ h, x.2 ≠ .failInit) → ∃ c', Good W c' (run W fx n h) := by
+  intro h
+  induction h with
+  | nil => intro n c hg _ _; exact ⟨c, hg⟩
+  | cons x rest ih =>
+    intro n c hg hv hnf
+    obtain ⟨op, ft⟩ := x
+    simp only [ValidHist] at hv
+    simp only [run]
+    have hpr : ∀ e, op ≠ .prune e := by
+      intro e he; subst he; exact hv.1
     have step : ∃ c', Good W c' (exec W fx n op ft).1 := by
+      by_cases hci : ft = .crashInit
+      · subst hci; exact ⟨c, crashInit_good hW fx hg op hpr⟩
+      have hb : ft ≠ .failInit ∧ ft ≠ .crashInit := ⟨hnf (op, ft) List.mem_cons_self, hci⟩
       cases op with
-      | store b => exact store_any_good_repaired hW hr hg hv.1 ft
-      | revert => exact revert_good hW hs hp hr hg ft
-      | l1head v => exact ⟨c, misc_good fx hg _ (Or.inl ⟨v, rfl⟩) ft⟩
-      | snap => exact ⟨c, snap_good hW fx hg _ (Or.inl rfl) ft⟩
-      | restart => exact ⟨c, snap_good hW fx hg _ (Or.inr rfl) ft⟩
-      | kill => exact ⟨c, misc_good fx hg _ (Or.inr rfl) ft⟩
+      | store b => exact store_any_good_repaired hW hr hg hv.1 ft hb
+      | revert => exact revert_good hW hs hp hr hg ft hb
+      | l1head v => exact ⟨c, misc_good fx hg _ (Or.inl ⟨v, rfl⟩) ft hb⟩
+      | snap => exact ⟨c, snap_good hW fx hg _ (Or.inl rfl) ft hb⟩
+      | restart => exact ⟨c, snap_good hW fx hg _ (Or.inr rfl) ft hb⟩
+      | kill => exact ⟨c, misc_good fx hg _ (Or.inr rfl) ft hb⟩
       | prune e => exact absurd hv.1 (by simp)
     obtain ⟨c', hg'⟩ := step
-    exact ih _ c' hg' hv.2
+    exact ih _ c' hg' hv.2 (fun x hx => hnf x (List.mem_cons_of_mem _ hx))
 
 end Juno.C05
